@@ -41,7 +41,7 @@ structure LoopMods where
 inductive Stmt where
   | expr (e : Expr)
   | assign (name : Bytes) (e : Expr)
-  | cycle (group : Bytes) (values : List Bytes)
+  | cycle (group : Bytes) (first : Bytes) (rest : List Bytes)   -- the grammar guarantees at least one value
   | loop (var : Bytes) (e : Expr) (mods : LoopMods)
   | when (es : List Expr)
   deriving Repr, Inhabited
@@ -248,12 +248,12 @@ def parseTokensE (toks : List ETok) : Option Stmt :=
           (match strLit t1 with
            | some s1 =>
              (match parseCycle3 f r1 with
-              | some (ss, r2) => if endOk r2 then some (.cycle s0 (s1 :: ss)) else none
+              | some (ss, r2) => if endOk r2 then some (.cycle s0 s1 ss) else none
               | none => none)
            | none => none)
         | _ =>
           (match parseCycle3 f r with
-           | some (ss, r2) => if endOk r2 then some (.cycle [] (s0 :: ss)) else none
+           | some (ss, r2) => if endOk r2 then some (.cycle [] s0 ss) else none
            | none => none))
      | none => none)
   | .cycle :: _ => none
